@@ -237,6 +237,11 @@ func SimC13(c *CheckCtx, i int, r *Rng) error {
 		eps = all
 	}
 	args := proto.GenArgs{Entrypoint: spell(r, m, eps), Base: base}
+	if i%60 == 13 && c.Env.CgoUsable() {
+		if AddCgoFile(r, m) {
+			c.Env.Stats.Add("probe/cgo-world", 1)
+		}
+	}
 	sc := &Scenario{Kind: "universe", Module: m, Base: base, LinkedRoot: i%4 == 2}
 	for _, s := range []string{"asc", "desc"} {
 		sc.Variants = append(sc.Variants, Variant{Name: "sched:" + s, Ops: []Op{{Kind: "run", Run: &RunOp{Args: args, Sched: schedOf(s, 0)}}}})
